@@ -595,6 +595,9 @@ func (c *Ctx) builtin(fr *Frame, name string, args []Value, call *ssa.CallCommon
 		return c.copyOp(fr, args[0].(Slice), args[1])
 	case "delete":
 		c.noMerge("delete")
+		if m := args[0].(*Map); m != nil && c.raceEnabled(fr) {
+			c.raceAccess(fr, m, true)
+		}
 		c.mapDelete(fr, args[0].(*Map), args[1])
 		return nil
 	case "clear":
